@@ -63,7 +63,7 @@ func NewStatesPaletteContainerWithData(length int, data []uint64, pat []BlocksSt
 		bits:    n,
 		config:  statesCfg{},
 		palette: p,
-		data:    NewBitStorage(n, length, data),
+		data:    NewBitStorage(statesCfg{}.bits(n), length, data),
 	}
 }
 
